@@ -346,6 +346,7 @@ package parse
 //@   ensures l.done == (old(l.done) || l.recv >= ntoks(l))
 
 //@ trusted (*lexer).drain -- receives until the channel is closed
+//@   untilclosed
 //@   modifies l.recv, l.done
 //@   ensures l.done && l.recv >= old(l.recv) && l.recv >= ntoks(l)
 
@@ -708,6 +709,7 @@ package parse
 //@   measure rem(t), 6
 //@   stackbound 10000 - t.depth, 5
 //@   requires afterNext(t) && tokAt(token, cursor(t) - 1, t.lex)
+//@   at call parse.rawtext#0 assert[text-is-trimmed-as-next-to-a-comment-only-for-comments-this-very-call-saw;C15] arg1 == (old(token.typ) == itemComment) && arg2 == (next.typ == itemComment)
 //@   ensures !halt ==> old(token.typ) != itemInvalid
 //@   ensures halt ==> afterNext(t)
 //@   ensures[terminal-seen;C18] halt && old(len(until) == 1 && until[0] == itemEOF) ==> t.lex.done
@@ -726,7 +728,7 @@ package parse
 //@   like parserFn
 //@   measure rem(t), 5
 //@   stackbound 10000 - t.depth, 4
-//@   at call (*tree).unexpected#0 assert[first-of-expression-accepted;C01] !firstOfExpr(arg1.typ)
+//@   at call (*tree).unexpected#0 assert[first-of-expression-accepted;C01,C17] !firstOfExpr(arg1.typ)
 //@   at call (*tree).next#1 assert[a-literal's-text-is-taken-only-when-there-is-some;C15] t.peekCount >= 1 && t.token[t.peekCount-1].typ == itemText
 
 //@ func (*tree).parsePrint
@@ -846,10 +848,16 @@ package parse
 //@     invariant stepOK(t)
 //@     decreases ntoks(t.lex) - cursor(t)
 
+// C03: each spelling of the attribute is the mode it names: "contextual" (and
+// its deprecated spelling) is a mode of its own - it overrides an enclosing
+// autoescape="false" - and only the absent attribute inherits.
 //@ func (*tree).parseAutoescape
-//@   props C05
+//@   props C05 C03
 //@   requires treeOK(t)
 //@   pure
+//@   ensures[only-the-absent-attribute-inherits;C03] (result == ast.AutoescapeUnspecified) == (!haskey(attrs, "autoescape") || attrs["autoescape"] == "")
+//@   ensures[contextual-is-a-mode-of-its-own;C03] haskey(attrs, "autoescape") && (attrs["autoescape"] == "contextual" || attrs["autoescape"] == "deprecated-contextual") ==> result == ast.AutoescapeContextual
+//@   ensures[true-and-false-are-on-and-off;C03] haskey(attrs, "autoescape") ==> (attrs["autoescape"] == "true" ==> result == ast.AutoescapeOn) && (attrs["autoescape"] == "false" ==> result == ast.AutoescapeOff)
 //@ func (*tree).boolAttr
 //@   props C05
 //@   requires treeOK(t)
